@@ -29,7 +29,8 @@ func (n keyValuePair) String() string {
 }
 
 func (n keyValuePair) Set(value string) error {
-	nsMap := strings.Split(value, "=")
+	// The name ends at the first '='; the value may itself contain '='.
+	nsMap := strings.SplitN(value, "=", 2)
 
 	if len(nsMap) != 2 {
 		return fmt.Errorf("invalid namespace mapping: %s", value)
